@@ -121,8 +121,8 @@ class RefServer:
             if not ab:
                 probs.append(("not-aborted", f"unknown command specifier answered with {r.hex()}"))
             self._zombie()
-        if ab and ccs not in (5, 6):
-            self.st = None           # the server's own abort ends the transfer as well
+        if ab:
+            self.st = None           # the server's own abort ends the transfer as well (also the refusal of a block request)
         return probs
 
     def _zombie(self):
